@@ -25,7 +25,13 @@ RULE = ("each case: 1-3 channel groups (index+int64 data channel) pre-filled ser
         "data (with/without the index channel), Read, iterate, open/close streamers, create/write/delete private "
         "channels. The same ops (those that reported success) are then run serially on a fresh DB. Non-trivial = "
         ">=2 threads with >=1 successful write and >=1 successful delete on the SAME group from different threads; "
-        "distinct by hash. A second phase re-runs a subset under the Go race detector, one process per case.")
+        "distinct by hash. A second phase re-runs a subset under the Go race detector, one process per case. "
+        "SCHEDULE INJECTION cases (about 80% of the evaluations): a two-thread scenario (GC vs delete/write/read, delete vs "
+        "write, delete vs delete, at the cesium level and on a bare domain.DB where writers on disjoint regions of ONE "
+        "channel exist; plus two deliberately conflicting scenarios) is run once per sampled I/O point k of thread A: every "
+        "file-system call and every delete offset resolver of A is a point, thread B is fired when A reaches point k (A waits "
+        "25 ms for B, which may be blocked on a lock A holds). The result must equal the serial outcome A;B or B;A. "
+        "Non-trivial there = B fired strictly inside A and both took effect.")
 TRUSTED = ["cesium public API driven by hooks/cesium/verifh/c09 (no in-package hook needed)",
            "Go race detector and a 40 s watchdog (observation only)"]
 ASSUMES = ["atomic steps of the model = cesium operations that reported success; the Go mutexes are assumed to make the "
@@ -306,6 +312,10 @@ def to_coq(case, r):
 
 def nontrivial(case, r):
     outs = r["conc"].get("outcomes") or []
+    if case.get("mode") == "inject":
+        # thread B was fired strictly inside thread A and both took effect
+        ok = all(any(x == "ok" for x in o) for o in outs) if outs else False
+        return bool(ok and (r.get("target") or 0) > 0 and (r.get("points") or 0) > 1)
     wr, dl = {}, {}
     for ti, th in enumerate(case["threads"]):
         for oi, o in enumerate(th):
@@ -441,7 +451,7 @@ def extra(ctx):
 
 
 READY = True
-TECHNIQUE = "Coq proof (commutation of independent operations ⇒ every interleaving equals the serial composition) + concurrent-vs-serial correspondence on the real DB + race detector sampling"
+TECHNIQUE = "Coq proof (commutation of independent operations ⇒ every interleaving equals the serial composition; index inserts commute) + concurrent-vs-serial correspondence on the real DB with I/O-point schedule injection + race detector sampling"
 DESIGN_REF = "DESIGN.md §8 C09, §13"
 LEVEL_TEXT = ("Proved in Coq for all thread counts, lengths and schedules: operations that touch different channels, or "
               "disjoint stamps/regions of one channel group, or are reads/iterators/streamers/GC, commute "
@@ -450,8 +460,12 @@ LEVEL_TEXT = ("Proved in Coq for all thread counts, lengths and schedules: opera
               "that also preserves per-step outputs). The content-level model is tied to /repo on every run: the real "
               "cesium.DB executes generated multi-thread scripts concurrently and serially; the model must predict the "
               "serial content, and the monitor demands concurrent content (in memory and after close+reopen) = serial "
-              "content. Race and deadlock freedom are observed (-race, watchdog), not proved.")
+              "content. Schedules are not only sampled: thread B is injected at every sampled I/O point of thread A (file-system calls, "
+              "delete offset resolvers), at the cesium and at the domain level. Race and deadlock freedom are observed (-race, "
+              "watchdog), not proved.")
 LEVEL_NOTE = ("Partial by nature: the theorem is about the model's atomic steps; that the Go locks make them atomic, that "
               "no data race or deadlock exists, is sampled with the race detector over generated schedules at "
-              "GOMAXPROCS 1/2/4/8. Found and fixed: F3 (index.insert encoded pointers after releasing the lock — "
-              "race with DeleteTimeRange on the same channel). Trusted: Coq kernel/vm_compute, model, harness, generator.")
+              "GOMAXPROCS 1/2/4/8 and enumerated at the I/O points of one thread. Found and fixed by this check: F3 (index.insert "
+              "encoded pointers after releasing the lock), F70 (newReader opened the file before taking the lock GC holds), F71 "
+              "(a delete straddling a GC file swap wrote back pre-compaction offsets), F72 (a reader used a pointer offset read "
+              "before a GC pass it then waited for). Trusted: Coq kernel/vm_compute, model, harness, generator.")
